@@ -160,6 +160,8 @@ class Program:
         self.global_decls = {}
         self.enums = {}
         self.records = {}
+        self.record_types = {}
+        anon_records = {}
         cur = None
         for n in tu["inner"]:
             loc = n.get("loc", {})
@@ -177,8 +179,25 @@ class Program:
                 for c in n.get("inner", []):
                     if c.get("kind") == "EnumConstantDecl":
                         self.enums[c["name"]] = c
+            elif k == "RecordDecl" and main and not n.get("name"):
+                anon_records[n.get("id")] = {c["name"]: c.get("type", {}).get("qualType", "") for c in n.get("inner", [])
+                                             if c.get("kind") == "FieldDecl"}
+            elif k == "TypedefDecl" and main:
+                def _ids(x):
+                    if isinstance(x, dict):
+                        for key in ("ownedTagDecl", "decl"):
+                            if isinstance(x.get(key), dict) and x[key].get("id"):
+                                yield x[key]["id"]
+                        for c in x.get("inner", []):
+                            yield from _ids(c)
+                for i_ in _ids(n):
+                    if i_ in anon_records:
+                        self.records[n["name"]] = list(anon_records[i_])
+                        self.record_types[n["name"]] = anon_records[i_]
             elif k == "RecordDecl" and main and n.get("name"):
                 self.records[n["name"]] = [c["name"] for c in n.get("inner", []) if c.get("kind") == "FieldDecl"]
+                self.record_types[n["name"]] = {c["name"]: c.get("type", {}).get("qualType", "") for c in n.get("inner", [])
+                                                if c.get("kind") == "FieldDecl"}
         del tu
         self.labels = {}
         for name, fn in self.functions.items():
